@@ -87,26 +87,41 @@ def _wide(case, bad):
         ext = longest + "zz"
         t2 = pandas.DataFrame({"A": pandas.Series([ext, seenA[0]], dtype=object), "num": [1.0, 2.0], "flag": [True, False],
                                "B": pandas.Series([seenB[0], seenB[-1]], dtype=object)})
-        cnt += 1
-        try:
-            o2 = tr.transform(t2)
-            e2 = None
-        except Exception as e_:
-            o2, e2 = None, e_
-        xcond = "%s,unseen category" % cond0
-        if not skip and e2 is None:
-            bad("unseen category does not raise", xcond, "value %r extends the training category %r; categories=%r single=%s" % (ext, longest, seenA, single))
-        if skip:
-            if e2 is not None:
-                bad("transform raises %s" % type(e2).__name__, xcond, "%s value %r skip_errors=True" % (str(e2)[:150], ext))
-            elif single:
-                g_ = o2["A"].iloc[0]
-                if not (g_ is None or (isinstance(g_, float) and g_ != g_)):
-                    bad("single=True: missing/unseen value encoded", xcond, "%r -> %r" % (ext, g_))
-            else:
-                lit = [c_ for c_ in o2.columns if str(c_).startswith("A=") and o2[c_].iloc[0] == 1.0]
-                if lit:
-                    bad("indicator set for another value", xcond, "unseen %r lights %r" % (ext, lit))
+        # ... and the same two rows at the head of a tall frame (1200 rows: whole-column code paths), the other rows cycling over the
+        # training categories
+        tall_n = 1200
+        tallA = [ext, seenA[0]] + [seenA[i % len(seenA)] for i in range(tall_n - 2)]
+        tallB = [seenB[0], seenB[-1]] + [seenB[(i * 3) % len(seenB)] for i in range(tall_n - 2)]
+        t3 = pandas.DataFrame({"A": pandas.Series(tallA, dtype=object), "num": numpy.arange(tall_n) * 1.0, "flag": [bool(i % 2) for i in range(tall_n)],
+                               "B": pandas.Series(tallB, dtype=object)})
+        for t2, tname in ((t2, ""), (t3, ",tall frame")):
+            cnt += 1
+            try:
+                o2 = tr.transform(t2)
+                e2 = None
+            except Exception as e_:
+                o2, e2 = None, e_
+            xcond = "%s,unseen category%s" % (cond0, tname)
+            if tname and e2 is None and o2 is not None and not single:
+                # the seen rows of the tall frame: exactly their own indicator among the A= columns
+                acols = [c_ for c_ in o2.columns if str(c_).startswith("A=")]
+                block = o2[acols].to_numpy(dtype=float)[2:]
+                want = numpy.array([[1.0 if c_ == "A=%s" % v_ else 0.0 for c_ in acols] for v_ in tallA[2:]])
+                if block.shape != want.shape or not numpy.array_equal(numpy.nan_to_num(block), want):
+                    bad("indicator set for another value", xcond, "tall frame: the A= block of the seen rows is not one indicator per row, categories=%r" % (seenA,))
+            if not skip and e2 is None:
+                bad("unseen category does not raise", xcond, "value %r extends the training category %r; categories=%r single=%s" % (ext, longest, seenA, single))
+            if skip:
+                if e2 is not None:
+                    bad("transform raises %s" % type(e2).__name__, xcond, "%s value %r skip_errors=True" % (str(e2)[:150], ext))
+                elif single:
+                    g_ = o2["A"].iloc[0]
+                    if not (g_ is None or (isinstance(g_, float) and g_ != g_)):
+                        bad("single=True: missing/unseen value encoded", xcond, "%r -> %r" % (ext, g_))
+                else:
+                    lit = [c_ for c_ in o2.columns if str(c_).startswith("A=") and o2[c_].iloc[0] == 1.0]
+                    if lit:
+                        bad("indicator set for another value", xcond, "unseen %r lights %r" % (ext, lit))
         for iname, idx in (("default", None), ("strings", ["r%d" % i for i in range(m)]), ("duplicates", [3] * m),
                            ("descending", list(range(m, 0, -1)))):
             for dname in ("object", "category", "str"):
